@@ -1,6 +1,6 @@
 (* C12 — disconnect-peer handling and reconnect policy
    Statements copied from the proof files; each is closed by `exact`. *)
-From DV Require Prelude.Base Model.Ids Proofs.IdsP Model.Node Proofs.NodeC Proofs.NodeA Proofs.NodeD.
+From DV Require Prelude.Base Model.Ids Proofs.IdsP Model.Node Proofs.NodeA Proofs.NodeC Proofs.NodeD Proofs.NodeF.
 From Coq Require String List Lia Bool Arith ZArith.
 
 Module FromNodeC.
@@ -101,6 +101,26 @@ Theorem C12_single_outbound : forall n0 n, reach n0 n ->
 Proof. exact NodeD.C12_single_outbound. Qed.
 End FromNodeD.
 
+Module FromNodeF.
+Import DV.Prelude.Base DV.Model.Node DV.Proofs.NodeC DV.Proofs.NodeF.
+Import Coq.micromega.Lia.
+Local Open Scope Z_scope.
+
+(* C12 (history): once a plain DPR has been read from connection cid while it was ready, then at every later event of the history connection cid -- as long as it exists; its number stays below the connection counter, so it is never given to another connection -- is DISCONNECTING, CLOSING or CLOSED (not ready) when the event starts, and a send_request hands nothing to connection cid: neither the application's request nor anything the I/O thread sends while it settles *)
+Theorem C12_history_no_routing_after_dpr n0 evs1 ds cid dpr evs2 c :
+  NodeD.wf_init n0 ->
+  get_conn (fst (run n0 evs1)) cid = Some c -> is_ready_state (c_state c) = true -> plain_dpr dpr ->
+  forall k nk e outs,
+    List.nth_error (strace n0 (evs1 ++ (ds, ERecv cid [dpr]) :: evs2)%list) k = Some (nk, (e, outs)) ->
+    (List.length evs1 < k)%nat ->
+    (cid < n_next_cid nk)%nat /\
+    (forall ck, get_conn nk cid = Some ck ->
+       is_ready_state (c_state ck) = false /\
+       (c_state ck = SDisconnecting \/ c_state ck = SClosing \/ c_state ck = SClosed)) /\
+    (forall i a realm pick tmo m', e = EAppRequest i a realm pick tmo -> ~ List.In (OQueue cid m') outs).
+Proof. exact (@NodeF.C12_history_no_routing_after_dpr n0 evs1 ds cid dpr evs2 c). Qed.
+End FromNodeF.
+
 Print Assumptions FromNodeC.C12_dpr.
 Print Assumptions FromNodeC.C12_dpr_not_routed.
 Print Assumptions FromNodeC.wants_reconnect_spec.
@@ -111,3 +131,4 @@ Print Assumptions FromNodeC.persistent_stable.
 Print Assumptions FromNodeA.C06_cea_never_revives.
 Print Assumptions FromNodeD.C12_outbound_owned.
 Print Assumptions FromNodeD.C12_single_outbound.
+Print Assumptions FromNodeF.C12_history_no_routing_after_dpr.
